@@ -21,7 +21,7 @@ RULE = ("a case is one schedule: 2-4 participants (processes; some with 2 thread
         "entries, or from another source version of the function, so that calls themselves invalidate and clear), call_and_shelve, reduce_size(items_limit 0|1), "
         "Memory.clear or func.clear, on a cold or warm, compressed or plain store; wrappers are created sequentially, then "
         "the coordinator picks which participant performs its next file-system call (PCT-like with <= 3 pre-emptions, "
-        "random walk, or - in the 'refill' scenario - an adversary that lets another participant store a new entry in the function's directory each time participant 0 is about to rmdir it); distinct_nontrivial counts distinct schedules (hash of the granted (participant, op, file) sequence) "
+        "random walk, or - in the 'thread duel' scenario - strict turns between two threads of one process storing the same large entry, or - in the 'refill' scenario - an adversary that lets another participant store a new entry in the function's directory each time participant 0 is about to rmdir it); distinct_nontrivial counts distinct schedules (hash of the granted (participant, op, file) sequence) "
         "in which at least two participants were interleaved")
 ASSUMPTIONS = [
     "only exceptions escaping cached calls (and wrong values) are violations; exceptions inside clear()/reduce_size() "
@@ -30,8 +30,8 @@ ASSUMPTIONS = [
     "file-system calls are serialised by the coordinator: races inside one call's kernel execution are not explored",
 ]
 SHARDS = {"quick": 12, "thorough": 14}
-FLOORS = {"quick": {"schedules": 200, "distinct_schedules": 150, "cached_calls_observed": 800, "preemption_points": 8, "refill_schedules": 6, "directory_refilled_before_its_rmdir": 4},
-          "thorough": {"schedules": 5000, "distinct_schedules": 3500, "cached_calls_observed": 30000, "preemption_points": 12, "refill_schedules": 150, "directory_refilled_before_its_rmdir": 100}}
+FLOORS = {"quick": {"schedules": 200, "distinct_schedules": 150, "cached_calls_observed": 800, "preemption_points": 8, "refill_schedules": 6, "directory_refilled_before_its_rmdir": 4, "thread_duel_schedules": 4, "thread_duel_turns": 40},
+          "thorough": {"schedules": 5000, "distinct_schedules": 3500, "cached_calls_observed": 30000, "preemption_points": 12, "refill_schedules": 150, "directory_refilled_before_its_rmdir": 100, "thread_duel_schedules": 100, "thread_duel_turns": 1000}}
 PART = os.path.join(harness.VERIF, "checks", "c11_part.py")
 
 FUNCS = '''
@@ -42,7 +42,8 @@ import threading
 def make(x, who):
     # a valid result of f(x) computed by writer `who`: self-consistent, but its bytes (and length) differ from
     # writer to writer, so that a file mixing two writers' output cannot be a valid result
-    return ["res", x, who, chr(65 + who % 26) * ((4000 if x % 2 else 30) + who % 977)]
+    # (x == 5: large enough to be written with several write() calls)
+    return ["res", x, who, chr(65 + who % 26) * ((150000 if x == 5 else 4000 if x % 2 else 30) + who % 977)]
 
 
 def valid(v, x=None):
@@ -52,7 +53,7 @@ def valid(v, x=None):
 
 def f(x):
     """cached function of C11"""
-    return make(x, os.getpid() * 7 + threading.get_ident() % 7)
+    return make(x, os.getpid() * 7919 + threading.get_ident() // 64 % 7919)
 '''
 
 
@@ -98,9 +99,33 @@ def refill_policy(rng, state):
     return policy
 
 
+def zipper_policy(rng, state):
+    """adversary for 'two threads of one process store the same entry': the two threads of participant 0 take strict
+    turns at every file-system call (anything the two share - e.g. a temporary file - gets both writers' data)"""
+    def policy(cands):
+        mine = [k for k, c in enumerate(cands) if c[0] == 0]
+        other = [k for k in mine if cands[k][1] != state.get("last")]
+        if not mine or rng.random() < 0.1:
+            return None
+        k = rng.choice(other or mine)
+        if other:
+            state["turns"] = state.get("turns", 0) + 1
+        state["last"] = cands[k][1]
+        return k
+    return policy
+
+
 def gen_roles(rng):
     r0 = rng.random()
-    if r0 < 0.06:
+    if r0 < 0.04:
+        # thread duel: two threads of ONE process compute and store the same (large, several write() calls) entry on a
+        # cold store while taking strict turns; an observer and a later reader look at what ends up under the final name
+        roles = [dict(kind="caller", ops=[["call", 5], ["call", 5]], compress=False, threads=2, zipper=True),
+                 dict(kind="observer", ops=[["observe"]] * rng.randint(2, 4), compress=False, threads=1)]
+        if rng.random() < 0.5:
+            roles.append(dict(kind="caller", ops=[["call", 5]], compress=False, threads=1))
+        return roles
+    if r0 < 0.10:
         # refill: participant 0's first call finds other code recorded and wipes the function directory while the others
         # keep storing new entries in it
         compress = rng.random() < 0.3
@@ -124,8 +149,8 @@ def gen_roles(rng):
         return roles
     if r0 < 0.47:
         # duel: several writers of ONE entry on a cold store, watched by a read-only observer
-        x = rng.choice([1, 1, 3, 2])
-        compress = rng.random() < 0.4
+        x = rng.choice([1, 1, 3, 2, 5, 5])
+        compress = rng.random() < 0.4 and x != 5
         roles = [dict(kind="caller", ops=[["call", x]] * rng.choice([1, 2]), compress=compress, threads=1) for _ in range(rng.choice([2, 2, 3]))]
         if rng.random() < 0.5:
             # two THREADS of one process write the same entry (same pid: the temporary name must still be unique)
@@ -162,6 +187,8 @@ def run_case(case, ctx):
     rng = harness.rng_for(ctx.seed, ID, case["i"])
     roles = gen_roles(rng)
     warm = (rng.random() < 0.5 and not any(r["kind"] == "observer" for r in roles)) or any(r.get("refill") for r in roles)
+    if any(r.get("zipper") for r in roles):
+        warm = False
     strategy = rng.choice(["pct", "pct", "walk"])
     work = harness.mkscratch("vjl-c11-")
     try:
@@ -182,8 +209,12 @@ def run_case(case, ctx):
         argvs = [[PART, json.dumps(role), root, os.path.join(work, f"out{i}.json")] for i, role in enumerate(roles)]
         pstate = {}
         refill = any(r.get("refill") for r in roles)
+        zipper = any(r.get("zipper") for r in roles)
         res = fssched.run_schedule(rng, argvs, root, work, strategy=strategy, est_len=rng.choice([40, 80, 150]),
-                                   policy=refill_policy(rng, pstate) if refill else None)
+                                   policy=refill_policy(rng, pstate) if refill else (zipper_policy(rng, pstate) if zipper else None))
+        if zipper:
+            ctx.count("thread_duel_schedules")
+            ctx.count("thread_duel_turns", pstate.get("turns", 0))
         if refill:
             ctx.count("refill_schedules")
             ctx.count("directory_refilled_before_its_rmdir", pstate.get("refills", 0))
